@@ -230,3 +230,30 @@ Proof.
     + destruct (bind_data t query 1); [rewrite H3; reflexivity|exfalso; apply (H2 eq_refl); reflexivity].
     + rewrite H3. reflexivity.
 Qed.
+
+(* ---------- map destinations *)
+Lemma map_entries_in mode d kv : In kv (map_entries mode d) ->
+  exists kv0, In kv0 d /\ fst kv = fst kv0 /\ (snd kv = snd kv0 \/ snd kv = firstn 1 (snd kv0)).
+Proof.
+  destruct mode; simpl; intro H.
+  - apply in_map_iff in H as [kv0 [<- Hin]]. exists kv0. simpl. auto.
+  - exists kv. auto.
+  - destruct H.
+Qed.
+
+Theorem bind_map_from_sources mode m params query d kvs : bind_map mode m params query (BForm d) = MBound kvs ->
+  forall kv, In kv kvs -> exists kv0,
+    (In kv0 params \/ (is_query_method m = true /\ In kv0 query) \/ In kv0 d) /\
+    fst kv = fst kv0 /\ (snd kv = snd kv0 \/ snd kv = firstn 1 (snd kv0)).
+Proof.
+  unfold bind_map. intro H; inversion H; subst; clear H. intros kv Hin.
+  apply in_app_or in Hin as [Hin|Hin].
+  - destruct (map_entries_in _ _ _ Hin) as [kv0 [H0 H1]]. exists kv0. tauto.
+  - apply in_app_or in Hin as [Hin|Hin].
+    + destruct (is_query_method m) eqn:Eq; [|destruct Hin].
+      destruct (map_entries_in _ _ _ Hin) as [kv0 [H0 H1]]. exists kv0. tauto.
+    + destruct (map_entries_in _ _ _ Hin) as [kv0 [H0 H1]]. exists kv0. tauto.
+Qed.
+
+Theorem bind_map_ignored m params query b kvs : bind_map MIgnored m params query b = MBound kvs -> kvs = [].
+Proof. unfold bind_map. simpl. destruct (is_query_method m); destruct b; intro H; inversion H; reflexivity. Qed.
